@@ -473,7 +473,7 @@ class Driver:
         self.mach = Machine(case, AutonomousStateMachine if self.auto else StateMachine, case["uid"])
         shape = {n: {"kind": s["kind"], "must_finish": s["must_finish"], "next": s.get("next"), "first": s["first"]}
                  for n, s in self.eff.items()}
-        self.model = Model(shape, auto=self.auto)
+        self.model = Model(shape, auto=self.auto, grid=case["grid"])
         self.dur = {}
         for n, s in self.eff.items():
             if s["kind"] == "timed":
@@ -884,7 +884,7 @@ class AutoDriver:
         # guidance only (clock landing): the model is not part of any C13 verdict
         shape = {n: {"kind": s["kind"], "must_finish": s["must_finish"], "next": s.get("next"), "first": s["first"]}
                  for n, s in self.eff.items()}
-        self.guide = Model(shape, auto=True)
+        self.guide = Model(shape, auto=True, grid=case["grid"])
         self.dur = {n: case["pre_nt"].get(n, s["dur_us"]) for n, s in self.eff.items() if s["kind"] == "timed"}
 
     def ev(self, k, n=1):
